@@ -62,6 +62,10 @@ def map_rules(fx, rep, prop_rule_prefix=''):
                     x, neg = tt.strip_not(lab)
                     if isinstance(x, tuple) and x and x[0] == 'inputs-equal' and ((taken != 0) != neg):
                         same[x[2]] = same.get(x[1], x[1])
+                    if isinstance(x, tuple) and x and x[0] == 'points-equal' and ((taken != 0) != neg):
+                        # the SSWU images were found to be the same point: every later image of the two is the same too
+                        i_, j_ = sorted([x[1][1], x[2][1]])
+                        same[j_] = same.get(i_, i_)
 
                 def merged(leaves):
                     out = {}
